@@ -992,7 +992,7 @@ func (g *Gen) singleDef(obj types.Object) ssa.Value {
 // storeSiteObls: call-site style clauses on map stores `m[k] = v` (label mapstore#N, N by source order):
 // the clause must hold just before the store, over the function's locals and arg_map, arg_key, arg_val.
 func (g *Gen) storeSiteObls(st *BState, in *ssa.MapUpdate) {
-	if g.con == nil || len(g.con.CallSites) == 0 {
+	if g.con == nil || (len(g.con.CallSites) == 0 && len(g.con.Covers) == 0) {
 		return
 	}
 	type site struct {
@@ -1015,6 +1015,7 @@ func (g *Gen) storeSiteObls(st *BState, in *ssa.MapUpdate) {
 		}
 	}
 	label := fmt.Sprintf("mapstore#%d", n)
+	g.noteSite(label, st, in, "")
 	a, pos := g.anchor(in.Pos())
 	for _, cl := range g.con.CallSites {
 		if cl.Label != label {
